@@ -40,4 +40,6 @@ def nats? (l : List String) : Option (List Nat) := l.mapM nat?
 def optNat (o : Option Nat) : String := match o with | some v => toString v | none => "-1"
 
 
+def skipV (st : St) (got : String) : St × Verdict := (st, expect "skip" got)
+
 end RModel.Driver
